@@ -222,7 +222,9 @@ func (e *Environment) makeRef(name string) (*Reference, bool) {
 			ref = r // set and return the original ref instead of ref of ref.
 		}
 		orig.store[name] = ref
-		if !Constant(name) && obj.Type() != FUNC {
+		// Only globals can be assumed stable when constant or a function: a captured parameter named N or
+		// holding a function differs from one closure to the next.
+		if ref.RefEnv.depth != 0 || (!Constant(name) && obj.Type() != FUNC) {
 			orig.getMiss++ // creating a ref to a non constant is a miss.
 			log.Debugf("makeRef(%s) GETMISS %d", name, orig.getMiss)
 		}
@@ -248,7 +250,7 @@ func (e *Environment) Get(name string) (Object, bool) {
 	obj, ok := e.store[name]
 	if ok {
 		// using references to non constant (extensions are constants) implies uncacheable.
-		if r, ok := obj.(Reference); ok && !Constant(r.Name) && r.ObjValue().Type() != FUNC {
+		if r, ok := obj.(Reference); ok && (r.RefEnv.depth != 0 || (!Constant(r.Name) && r.ObjValue().Type() != FUNC)) {
 			e.getMiss++
 			log.Debugf("get(%s) GETMISS %d", name, e.getMiss)
 		}
